@@ -5,7 +5,9 @@
        library's own PARTS/TERMS/... records are ignored), each query followed by a line
          gfmodel <nz> {re im} [n <k> {numbers}]        or    suscmodel <nz> {re im} [n <k> {numbers}]
        answered from PV.GFPart / PV.SuscPart:
-         RUN <strict|lenient|fixed> <L> <R> <Done | PastEnd A|B pos | OOB A|B pos | Fuel>      one per part and mode
+         RUN <strict|lenient|fixed|source> <L> <R> <Done | PastEnd A|B pos | OOB A|B pos | Fuel>      one per part and mode
+              strict / lenient: loops without the iterator test; fixed: with it; source: as the translator found them in the
+              source now (lenient: what the hardware does);  GUARDED 0|1: that finding
          WF <0|1>                                                    all matrices well-formed (cs_wf_b) and compressed
          MPARTS n {L R} / MTERMS L R n {re im pole} / MSTAT L R matched kept dropped new merged negl refused
          MZERO L R re im (susceptibility) / MAVG reA imA reB imB
@@ -15,6 +17,7 @@
          gfbound <i> <j> <nz> {re im} [n <k> {numbers}]   ->  GFBOUND i j nz {dropped merge abssum} / GFBOUNDN k {n dropped merge abssum}
          suscbound <a> <b> <c> <d> <k> {numbers}          ->  SUSCBOUNDN k {n dropped merge resonance abssum}
          susctaubound <a> <b> <c> <d>                      ->  SUSCTAUBOUND dropped merge      (uniform in tau)
+         susctauspec <a> <b> <c> <d> {tau}                 ->  SUSCTAUSPEC a b c d {re im}     (PV.TruncSpec.susc_tau_safe, unsubtracted)
        (abssum = sum over all Lehmann terms of |R|/|z-P|: the scale of the rounding error)
        answered from PV.TruncSpec on the full Fock space. *)
 open C01_model
@@ -135,7 +138,8 @@ let gfmodel (t : string array) =
          let g1 = gfin (List.filter (fun lr -> lr = (l, r)) !mapl) (List.filter (fun rl -> rl = (l, r)) !mapr) csA csB in
          List.iter (fun (name, fx, ln) ->
              Printf.printf "RUN %s %d %d %s\n" name l r (verdict (c_gf_compute fexp fx ln tols g1)))
-           [("strict", false, false); ("lenient", false, true); ("fixed", true, false)]) parts;
+           [("strict", false, false); ("lenient", false, true); ("fixed", true, false); ("source", c_gf_chase_guarded, true)]) parts;
+     Printf.printf "GUARDED %d\n" (if c_gf_chase_guarded then 1 else 0);
      Printf.printf "MPARTS %d%s\n" (List.length parts) (String.concat "" (List.map (fun ((l, r), _) -> Printf.sprintf " %d %d" l r) parts));
      List.iter (fun ((l, r), o) ->
          Printf.printf "MTERMS %d %d %d%s\n" l r (List.length o.o_terms)
@@ -170,7 +174,8 @@ let suscmodel (t : string array) =
          let g1 = gfin (List.filter (fun lr -> lr = (l, r)) !mapl) (List.filter (fun rl -> rl = (l, r)) !mapr) csA csB in
          List.iter (fun (name, fx, ln) ->
              Printf.printf "RUN %s %d %d %s\n" name l r (verdict (c_susc_compute fexp fx ln tols g1)))
-           [("strict", false, false); ("lenient", false, true); ("fixed", true, false)]) parts;
+           [("strict", false, false); ("lenient", false, true); ("fixed", true, false); ("source", c_susc_chase_guarded, true)]) parts;
+     Printf.printf "GUARDED %d\n" (if c_susc_chase_guarded then 1 else 0);
      Printf.printf "MPARTS %d%s\n" (List.length parts) (String.concat "" (List.map (fun ((l, r), _) -> Printf.sprintf " %d %d" l r) parts));
      List.iter (fun ((l, r), o) ->
          Printf.printf "MTERMS %d %d %d%s\n" l r (List.length o.so_terms)
@@ -276,6 +281,13 @@ let susctaubound (t : string array) =
   let wd = c_with_delta fexp tolM tolC terms in
   Printf.printf "SUSCTAUBOUND %h %h\n" (re (c_tau_dropped_bound fexp (c !beta 0.) tolM terms)) (re (c_tau_merge_bound fexp (c !beta 0.) wd))
 
+let susctauspec (t : string array) =
+  let a = ios t.(1) and b = ios t.(2) and cc = ios t.(3) and d = ios t.(4) in
+  Printf.printf "SUSCTAUSPEC %d %d %d %d" a b cc d;
+  for k = 5 to Array.length t - 1 do
+    Printf.printf " %s" (hc (c_susc_tau_safe fexp (c !beta 0.) !evals (quad a b) (quad cc d) (c (fos t.(k)) 0.)))
+  done; print_newline ()
+
 let handle (t : string array) =
   let a k = t.(k) in
   match a 0 with
@@ -319,6 +331,7 @@ let handle (t : string array) =
   | "gfbound" -> gfbound t
   | "suscbound" -> suscbound t
   | "susctaubound" -> susctaubound t
+  | "susctauspec" -> susctauspec t
   | _ -> ()
 
 let () =
